@@ -543,6 +543,12 @@ class SymNum:
         return 0x5EED
 
     # -- conversions --------------------------------------------------------
+    def is_integer(self):
+        """float.is_integer / int.is_integer: a decision on symbolic reals"""
+        if self.is_int:
+            return True
+        return bool(SymBool(self.t == z3.ToReal(z3.ToInt(self.t))))
+
     def __floor__(self):
         return self if self.is_int else SymNum(z3.ToInt(self.t))
 
